@@ -15,6 +15,8 @@ claimed={
    ref="DESIGN.md section 4 C03", technique="bounded symbolic execution of go/ssa over an uninterpreted block cipher, SMT (z3 5.1, cvc5 cross-check) discharge; counterexamples replayed natively"),
  "C17":dict(text="Bounded symbolic model checking of the real drbg code over an uninterpreted hash / block cipher: each of instantiate, Reseed and Generate of Hash_DRBG, HMAC_DRBG and CTR_DRBG (NIST and GM variants) is executed once from an ARBITRARY working state (V, C/Key symbolic, reseed counter an arbitrary uint64, elapsed time an arbitrary duration) and compared with SP 800-90A Rev.1 transcribed in the harness, so every interleaving of operations follows by induction; the reseed gate is decided symbolically (refusal iff counter > interval or, in GM mode, elapsed > time interval; refused calls leave state and buffer untouched); the byte-wise adders are proved equal to integer addition; the DrbgPrng reader is checked over an abstract generator and a scripted entropy source failing or running short at any call.",
    ref="DESIGN.md section 4 C17", technique="bounded symbolic execution of go/ssa over uninterpreted hash/cipher, one inductive step per operation, SMT (z3 5.1, cvc5 cross-check); counterexamples replayed natively"),
+ "C01":dict(text="Bounded symbolic model checking of the real SM3 state machine and KDF with the compression function uninterpreted: one Write/Sum/Marshal/Unmarshal/Reset step from an ARBITRARY valid state (every nx 0..63, arbitrary chaining value, arbitrary total length) against GB/T 32905 padding, so digests of arbitrarily long messages and arbitrary call histories follow by induction; the KDF through the real dispatcher of each build (purego kdfGeneric; amd64 kdf/kdfBy4/kdfBy8/prepareInitData on the scalar, SSSE3/AVX and AVX2 tiers with the lane kernels as footprint-checked contracts) for every nx and block-count class against H(z||ct); exported Kdf on used objects and consecutive calls (buffer reuse). The equivalence of blockGeneric with the standard's compression function and the assembly bodies are outside.",
+   ref="DESIGN.md section 4 C01", technique="bounded symbolic execution of go/ssa with uninterpreted compression function, one inductive step per operation, SMT (z3 5.1, cvc5 cross-check); counterexamples replayed natively against the real assembly"),
 }
 NA={
  "C20":"data-race freedom over all schedules needs a concurrent execution model (threads, happens-before, sync/atomic); the go/ssa symbolic executor is sequential by construction and no Go symbolic concurrency engine is available in the image (DESIGN.md section 4 C20)",
